@@ -79,6 +79,19 @@ def run(tier, wd):
                 c, a = V.concrete("custom", role, False, None, envpat, clipat, rnd, custom=caps, tag="_%d" % (n % 7))
                 cases.append(c)
                 abstracts.append(a)
+    # the application ran before under ANOTHER spec string (Spec assigned between two runs): the calls of the observed run are those of
+    # the spec in force then
+    for m, d in itertools.product([False, True], repeat=2):
+        caps = {"bool": False, "multi": m, "isdefault": d, "failon": list(V.INVALID["custom"])}
+        for role, prespec, pre in (("opt", "[-x] [-o]", ["-x", "-o", "t7"]), ("arg", "[-x] A", ["t7"]), ("opt", "-o -x", ["-ot8", "-x"])):
+            for clipat in (("valid",), ("valid", "valid"), ("valid", "invalid")):
+                n += 1
+                c, a = V.concrete("custom", role, False, None, (), clipat, rnd, custom=caps, tag="_%d" % (n % 7))
+                if c["spec"].startswith("--"):
+                    continue
+                c.update(extraflag=True, prerun=[pre], prespec=prespec)
+                cases.append(c)
+                abstracts.append(a)
     # an empty string as a separate option value; a literal -- among the arguments after options were ended
     for m, d in itertools.product([False, True], repeat=2):
         caps = {"bool": False, "multi": m, "isdefault": d, "failon": list(V.INVALID["custom"])}
